@@ -220,26 +220,32 @@ class Stream:
     """A random stream whose elements are solver variables named (tag, index): two runs that use the same tag
     share their variables (same seed => same stream), different tags are independent."""
     def __init__(self, tag, distinct=False):
-        self.tag, self.pos, self.elems, self.distinct = tag, 0, {}, distinct
+        self.tag, self.pos, self.distinct = tag, 0, distinct
 
     def unit(self):
         """next element as a real in [0, 1)"""
         i = self.pos
         self.pos += 1
-        if i not in self.elems:
+
+        def mk():
             u = sym.real(f"{self.tag}[{i}]", lo=0.0, hi=1.0, hi_strict=True)
-            if self.distinct and self.elems:
-                sym.distinct(list(self.elems.values()) + [u])
-            self.elems[i] = u
-        return self.elems[i]
+            if self.distinct:
+                others = [v for (t, j), v in Stream._reals if t == self.tag]
+                if others:
+                    sym.distinct(others + [u])
+                Stream._reals.append(((self.tag, i), u))
+            return u
+        if i == 0 and self.distinct:
+            Stream._reals = [e for e in Stream._reals if sym._shared.get(f"stream:{e[0][0]}[{e[0][1]}]") is e[1]]
+        return sym.shared(f"stream:{self.tag}[{i}]", mk)
 
     def index(self, n):
         """next element as an int in range(n)"""
         i = self.pos
         self.pos += 1
-        if i not in self.elems:
-            self.elems[i] = sym.integer(f"{self.tag}[{i}]", 0, n - 1)
-        return self.elems[i]
+        return sym.shared(f"stream:{self.tag}[{i}]", lambda: sym.integer(f"{self.tag}[{i}]", 0, n - 1))
+
+    _reals = []
 
 
 def numpy_stream_layer(get_stream, on_seed=None):
